@@ -177,7 +177,7 @@ VH_EXPORT int vp_h17c_context(const unsigned char* in, unsigned char* out) {
 }
 //@ OBL {"name": "h17d_phone", "prop": "vp_h17d_phone", "in": 11, "out": 8, "unwind": 9, "fs": 32, "cap_s": 900, "backends": ["default", "kissat"], "bounds": "every string of length <= 7, min/max digits 0..8, plus required or not, loaded or not", "desc": "PhoneNumber validator: passes only well-formed numbers with min <= digits <= max (inclusive); plain numbers within the limits pass"}
 //@ OBL {"name": "h17d_email", "prop": "vp_h17d_email", "in": 11, "out": 8, "unwind": 9, "fs": 32, "cap_s": 900, "backends": ["default", "kissat"], "bounds": "every string of length <= 7, loaded or not", "desc": "Email validator: passes only local@domain shapes; letters@letters passes"}
-//@ OBL {"name": "h17c_context", "prop": "vp_h17c_context", "in": 8, "out": 8, "unwind": 10, "fs": 32, "cap_s": 3600, "bounds": "3 errors over the paths /a, /a/b, /b, /ab in every order and multiplicity (a path that is a prefix of another one included)", "desc": "SerializationContext: ValidationException lists exactly the failing fields, each with exactly its messages in arrival order", "tier": "thorough"}
+//@ OBL {"name": "h17c_context", "prop": "vp_h17c_context", "in": 8, "out": 8, "unwind": 10, "fs": 32, "cap_s": 3600, "bounds": "3 errors over the paths /a, /a/b, /b, /ab in every order and multiplicity (a path that is a prefix of another one included)", "desc": "SerializationContext: ValidationException lists exactly the failing fields, each with exactly its messages in arrival order", "tier": "open"}
 //@ OBL {"name": "h17a_required", "prop": "vp_h17a_required", "in": 8, "out": 8, "unwind": 4, "bounds": "every value, both loaded states", "desc": "Required fails iff the field was not loaded"}
 //@ OBL {"name": "h17a_range_i32", "prop": "vp_h17a_range_i32", "in": 25, "out": 8, "unwind": 4, "bounds": "every int32 value / min / max, both loaded states", "desc": "Range<int32>: inclusive bounds, passes when absent"}
 //@ OBL {"name": "h17a_range_u64", "prop": "vp_h17a_range_u64", "in": 25, "out": 8, "unwind": 4, "bounds": "every uint64 value / min / max", "desc": "Range<uint64>"}
